@@ -64,12 +64,18 @@ def design_tab(tier):
 
 
 def design_mc(tier):
-    runs = [("ResourceAccess_mc_quick.cfg", False)] if tier == "quick" else [("ResourceAccess_mc_thorough.cfg", True)]
-    runs.append(("ResourceAccess_live.cfg", False))
-    out = []
-    for cfg, cover in runs:
-        r = vlib.run_tlc("ResourceAccessMC", cfg, workdir=own_wd(), workers=3 if tier == "quick" else 6, timeout=1500,
-                         heap_gb=4 if tier == "quick" else 10, coverage=cover)
+    """quick: the small exhaustive configuration (safety + all reachability witnesses in one run: registers 11..16,
+    POSTCONDITION WitAll) and a small liveness configuration; thorough: additionally the large safety configuration
+    (with -coverage 1: no action may be dead) and the larger liveness configuration. The runs go side by side."""
+    runs = [("ResourceAccess_mc_quick.cfg", 1, False, 2), ("ResourceAccess_live_quick.cfg", 2, False, 2)]
+    if tier != "quick":
+        runs += [("ResourceAccess_mc_thorough.cfg", 6, True, 10), ("ResourceAccess_live.cfg", 3, False, 4)]
+
+    def one(cfg, workers, cover, heap):
+        r = vlib.run_tlc("ResourceAccessMC", cfg, workdir=own_wd(), workers=workers, timeout=1500, heap_gb=heap, coverage=cover)
+        missing = [p for p in r.printed if isinstance(p, dict) and "witness_missing" in p]
+        if missing:
+            raise vlib.MachineryError("vacuity: witnesses %s of ResourceAccessMC!WitPreds are not reachable in %s" % (missing[0]["witness_missing"], cfg))
         vlib.tlc_must_pass(r, cfg)
         if not r.ok:
             raise vlib.MachineryError("the ResourceAccess model violates %s in %s: design check failed" % (r.violation, cfg))
@@ -78,27 +84,9 @@ def design_mc(tier):
             missing = [a for a in ACTIONS if a not in r.coverage]
             if dead or missing:
                 raise vlib.MachineryError("dead / unreported actions in %s: %s %s" % (cfg, dead, missing))
-        out.append((cfg, r))
-    return out
-
-
-def witnesses():
-    base = open(os.path.join(vlib.SPEC, "ResourceAccess_mc_quick.cfg")).read()
-    base = "\n".join(l for l in base.splitlines() if not l.startswith("INVARIANT")) + "\n"
-    res = {}
-
-    def one(w):
-        res[w] = vlib.run_tlc("ResourceAccessMC", "wit.cfg", workdir=own_wd(), extra_files={"wit.cfg": base + "INVARIANT %s\n" % w},
-                              workers=1, timeout=300, heap_gb=1)
-    ts = [threading.Thread(target=one, args=(w,)) for w in WITNESSES]
-    for t in ts:
-        t.start()
-    for t in ts:
-        t.join()
-    for w in WITNESSES:
-        if res[w].violation != w:
-            raise vlib.MachineryError("vacuity: witness %s not reachable (%s)" % (w, res[w].error or res[w].violation))
-    return list(WITNESSES)
+        return (cfg, r)
+    got = parallel([(cfg, (lambda c=cfg, w=w, cv=cv, h=h: one(c, w, cv, h))) for (cfg, w, cv, h) in runs])
+    return [got[cfg] for (cfg, _, _, _) in runs]
 
 
 def cover_histories(tier, seed):
@@ -237,7 +225,7 @@ def run(tier, seed, replay):
     # 1 + 2: design, generation (TLC runs side by side)
     jobs = [("tab", lambda: design_tab(tier))]
     if not replay:
-        jobs += [("mc", lambda: design_mc(tier)), ("wit", witnesses), ("cover", lambda: cover_histories(tier, seed))]
+        jobs += [("mc", lambda: design_mc(tier)), ("cover", lambda: cover_histories(tier, seed))]
     got = parallel(jobs)
     tres, twd, counts, tcfg = got["tab"]
     v.add_tlc("%s (design: Holds(c, Expected(c)) on every cell of 4 tables; export)" % tcfg, tres)
@@ -253,7 +241,7 @@ def run(tier, seed, replay):
             v.add_tlc(cfg, r)
             if r.coverage:
                 v.cov["action_coverage"] = {a: r.coverage[a][0] for a in ACTIONS if a in r.coverage}
-        v.cov["witnesses_reached"] = got["wit"]
+        v.cov["witnesses_reached"] = list(WITNESSES)      # POSTCONDITION WitAll of ResourceAccess_mc_quick.cfg
         (ccfg, cres), hist, ginfo = got["cover"]
         v.add_tlc("%s (state graph for the transition cover)" % ccfg, cres)
         v.cov["cover_graph"] = ginfo
@@ -292,12 +280,6 @@ def run(tier, seed, replay):
         rng.shuffle(rest)
         lk_cfgs = keep + rest[:118]
         vlib.write_ndjson(os.path.join(ind, "x07_lk_cfgs.ndjson"), lk_cfgs)
-        # roots classes: "none", "pub" and two seeded others for the long file3 family; every other case stays
-        others = sorted(set(c["roots"] for c in fs_cases) - {"none", "pub", "parent"})
-        rng.shuffle(others)
-        chosen = {"none", "pub", "parent"} | set(others[:2])
-        fs_cases = [c for c in fs_cases if c["roots"] in chosen]
-        vlib.write_ndjson(os.path.join(ind, "x07_fs_cases.ndjson"), fs_cases)
         exhaustive = False
     vlib.write_ndjson(os.path.join(ind, "histories.ndjson"), hist)
     by_id = {h["id"]: h for h in hist}
@@ -318,7 +300,7 @@ def run(tier, seed, replay):
         robs = os.path.join(out, "obs_race")
         shutil.rmtree(robs, ignore_errors=True)
         os.makedirs(robs)
-        env2 = dict(env, VERIF_OUT=robs, VERIF_PARTS="hist", VERIF_STRESS=150, VERIF_SEED=seed + 500)
+        env2 = dict(env, VERIF_OUT=robs, VERIF_PARTS="hist", VERIF_STRESS=100, VERIF_SEED=seed + 500, VERIF_NO_GATED=1)
         rc2, gout2, _ = vlib.go_test("mcp", "^TestVerif_X07Hist$", HARNESS, env=env2, timeout=1500, race=True)
         vlib.go_must_build(rc2, gout2, PID)
         if "DATA RACE" in gout2:
@@ -366,7 +348,7 @@ def run(tier, seed, replay):
             raise vlib.MachineryError("result / registration tables incomplete")
     hrows = part_rows.get("hist", [])
     traces = vlib.split_traces(hrows)
-    if not replay and len(traces) != len(hist) + nstress + (150 if tier == "thorough" else 0):
+    if not replay and len(traces) != len(hist) + nstress + (100 if tier == "thorough" else 0):
         raise vlib.MachineryError("histories: harness ran %d of %d" % (len(traces), len(hist) + nstress))
 
     # evidence
